@@ -357,7 +357,13 @@ func ProofAuthenticate(cfg ProofConfig, inner AuthenticateFunc) (AuthenticateFun
 	}
 	var cache *nonceCache
 	if !cfg.DisableReplayCache {
-		cache = newNonceCache(time.Duration(cfg.SkewSeconds)*time.Second, capacity, cfg.Now)
+		// A nonce must be remembered for as long as its proof can still verify.
+		// A proof stamped up to SkewSeconds ahead of this worker's clock is
+		// accepted now and keeps verifying until its timestamp is SkewSeconds
+		// old, i.e. for up to 2*SkewSeconds after admission (plus the second
+		// the whole-second age comparison rounds away). A TTL of SkewSeconds
+		// forgot such a nonce while its proof was still inside the window.
+		cache = newNonceCache(time.Duration(2*cfg.SkewSeconds+1)*time.Second, capacity, cfg.Now)
 	}
 	required := cfg.Mode == ProofModeRequire
 	local := cfg
